@@ -117,7 +117,9 @@ partial def loop (h : IO.FS.Stream) (s : S) : IO Unit := do
     let sh (r : InvState × Option Int) : String :=
       s!"{r.1.count}:{r.1.pos}:" ++ (match r.2 with | some i => toString i | none => "-")
     let tbl := Xmp.Gen.DataWriters.invloopTable
-    IO.println s!"m_inv {sh (invloopStep tbl false st x)} {sh (invloopStep tbl true st x)}"
+    -- third alternative: the player reset the channel (position change, module restart) earlier in this tick
+    let st0 : InvState := { st with count := 0, pos := 0 }
+    IO.println s!"m_inv {sh (invloopStep tbl false st x)} {sh (invloopStep tbl true st x)} {sh (invloopStep tbl false st0 x)}"
     loop h s
   | "skel_begin" :: _ => loop h {}
   | _ => loop h s
